@@ -19,7 +19,7 @@ const KEYWORDS: [&str; 30] = [
 /// standard constants appended to every program so that replacements can refer to them
 const EXTRA_CONSTS: &str = "    let SA = [1, 2, 3]\n    let SS = \"txt\"\n    let SB = true\n    let SN = [[1, 2], [3]]\n    let SG = Graph {\n        P -> [Q: 2],\n        Q\n    }\n    let SF = 2.5\n";
 
-const REPLACEMENTS: [(&str, &str); 38] = [
+const REPLACEMENTS: [(&str, &str); 41] = [
     ("\"str\"", "string"),
     ("SS", "string"),
     ("true", "boolean"),
@@ -58,6 +58,9 @@ const REPLACEMENTS: [(&str, &str); 38] = [
     ("range(0, 2, 1)", "range-with-numeric-flag"),
     ("range(0, 2, true)", "range-call"),
     ("range(SA, 2, true)", "range-from-array"),
+    ("(-true)", "negated-boolean"),
+    ("(-SB or true)", "negated-boolean-in-logic"),
+    ("range(0, 2, -true)", "range-with-negated-boolean-flag"),
 ];
 
 #[derive(Debug, Clone)]
